@@ -456,6 +456,12 @@ func (d *Driver) dt() int64 {
 }
 
 func cmdRandom(profile string, seed int64, steps, runs int, out string) error {
+	// "exp<profile>": the same driver, with an export / re-import at random block boundaries (C15)
+	expProb := 0.0
+	if strings.HasPrefix(profile, "exp") {
+		profile = strings.TrimPrefix(profile, "exp")
+		expProb = 0.15
+	}
 	f, err := os.Create(out)
 	if err != nil {
 		return err
@@ -495,6 +501,12 @@ func cmdRandom(profile string, seed int64, steps, runs int, out string) error {
 				return err
 			}
 			n += 2
+			if expProb > 0 && d.chance(expProb) {
+				if err := r.Step(M{"a": "ExportImport"}); err != nil {
+					return err
+				}
+				n++
+			}
 		}
 	}
 	if r.W != nil {
